@@ -159,6 +159,9 @@ def mix_stream(chk, rng, quick):
     if len(canon) < 8:
         chk.violation("correspondence", "the expression printer no longer prints the canonical bindings of the mixture stream as written", canonical=canon)
     srcs, wellformed = mix_sources(rng, 4000 if quick else 80000, canon)
+    # U+0001 separates the pieces in the line protocol: a source that denotes this character (`&#1;`) cannot be carried (false alarm of thorough seed 41)
+    keep = [i for i, s_ in enumerate(srcs) if not re.search(r"&#0*1;|&#[xX]0*1;|\x01", s_)]
+    srcs, wellformed = [srcs[i] for i in keep], [wellformed[i] for i in keep]
     real = core.run_harness([core.req("mix_value", s_) for s_ in srcs])
     if real and real[0] == "bad-op":
         chk.notes.append("harness has no mix_value op: mixture correspondence skipped")
